@@ -39,6 +39,7 @@ def run_ft(binary, lines, chunk=120, env=None, timeout=600):
     """One process per <chunk> scripts (leaked tickers of earlier scenarios cost clock jumps)."""
     out = []
     group = []
+    last_scale = [None]
 
     def flush():
         if group:
@@ -52,11 +53,24 @@ def run_ft(binary, lines, chunk=120, env=None, timeout=600):
             flush()
             out.extend(common.run_impl(binary, [l], env=env or FT_ENV, timeout=120))
             continue
+        # scripts on the scale of the default expiries (1 s) and scripts on the ns/us scale never share a process: a
+        # sweep ticker configured for one scale that (wrongly) survives into the other would fire ~10^9 times
+        sc = _scale(l)
+        if group and sc != last_scale[0]:
+            flush()
+        last_scale[0] = sc
         group.append(l)
         if len(group) >= chunk:
             flush()
     flush()
     return out
+
+
+def _scale(line):
+    for tok in line.split():
+        if tok.startswith("ne=") and int(tok[3:]) >= 1000000:
+            return "large"
+    return "small"
 
 
 def _huge(line):
@@ -973,8 +987,13 @@ def monitor_items(chk, binary, items, monitor, chunk=120):
 
 
 # ------------------------------------------------------------------ generators
-EXPIRES = [(1600, 1600), (1600, 800), (3200, 160), (1000, 999), (4800, 1600), (48, 16), (160, 1), (2, 1), (16000, 4000),
-           (DEFAULTS["ne"], DEFAULTS["ee"])]   # the last pair = the defaults: such a script passes no WithExpire at all
+EXPIRES = [(1600, 1600), (1600, 800), (3200, 160), (1000, 999), (4800, 1600), (48, 16), (160, 1), (2, 1), (16000, 4000)]
+# explicit expiries of the caches that share a process with a cache created WITHOUT WithExpire (1 s / 100 ms): within a
+# factor 1000 of the defaults, so that the sweep tickers of all caches of the process fire at most a few thousand times
+# during the longest script (each tick is a jump of the virtual clock)
+EXPIRES_LARGE = [(1600000, 1600000), (3200000, 160000), (48000000, 16000000), (1600000000, 800000000), (2000000000, 100000000),
+                 (320000000, 100000000)]
+DEFAULT_EXPIRE = (DEFAULTS["ne"], DEFAULTS["ee"])
 
 
 def pick_keys(rng, n):
@@ -1034,13 +1053,17 @@ def multi_scripts(rng, n, nacts=(3, 7), horizon_mult=6):
     out = []
     for _ in range(n):
         subs = []
-        for i in range(rng.choice([2, 2, 3])):
+        with_default = rng.chance(2, 3)     # some cache of this process is created without WithExpire
+        pool = EXPIRES_LARGE if with_default else EXPIRES
+        m = rng.choice([2, 2, 3])
+        dflt = rng.range(1, m - 1) if with_default else -1
+        for i in range(m):
             if i == 0:
-                exp, par, jcs = rng.choice(EXPIRES[:-1]), rng.choice([2, 4]), rng.choice([3, 64, 200])
+                exp, par, jcs = rng.choice(pool), rng.choice([2, 4]), rng.choice([48, 64, 200])
             else:
-                exp = EXPIRES[-1] if rng.chance(1, 2) else rng.choice(EXPIRES[:-1])
+                exp = DEFAULT_EXPIRE if (i == dflt or (with_default and rng.chance(1, 3))) else rng.choice(pool)
                 par = DEFAULTS["par"] if rng.chance(1, 2) else rng.choice([2, 4])
-                jcs = DEFAULTS["jcs"] if rng.chance(1, 2) else rng.choice([2, 64])
+                jcs = DEFAULTS["jcs"] if rng.chance(1, 2) else rng.choice([32, 64])   # never full: the scripts have < 32 Loads
             sc = base_script(rng, par=par, jcs=jcs, nacts=rng.range(*nacts), horizon_mult=horizon_mult, expire=exp)
             if i > 0 and rng.chance(1, 2) and len(subs[0].keys) >= len(sc.keys):
                 sc.keys = subs[0].keys[:len(sc.keys)]
@@ -1048,6 +1071,7 @@ def multi_scripts(rng, n, nacts=(3, 7), horizon_mult=6):
         if rng.chance(1, 3):
             subs.reverse()   # the all-default cache first, the configured ones later
         out.append(Multi(subs))
+    out.sort(key=lambda mu: 0 if any(sc.ne >= 1000000 for sc in mu.subs) else 1)   # stable: the 1 s scale first (run_ft)
     return out
 
 
